@@ -17,7 +17,7 @@ func init() {
 	register(&Property{
 		ID:        "C39",
 		Patterns:  []string{"./sql/planbuilder", "./sql/analyzer"},
-		Technique: "enum-dispatch exhaustiveness + arm classification over go/ast+go/types; constant pair table read from the parser's composite literals; type-driven coverage; CFG must-pass-through; interprocedural may-share (map aliasing) analysis over go/ssa with function summaries for the privilege-set merge/copy family",
+		Technique: "keyer/key struct field agreement over go/types (method-set enumeration, composite-literal field flow, call-site key types); enum-dispatch exhaustiveness + arm classification over go/ast+go/types; constant pair table read from the parser's composite literals; type-driven coverage; CFG must-pass-through; interprocedural may-share (map aliasing) analysis over go/ssa with function summaries for the privilege-set merge/copy family",
 		Explanation: "Privilege checks — dispatch and coverage clauses of defaultAuthorizationHandler.HandleAuth and its callers in package planbuilder. (A1) the switches over auth.AuthType and auth.TargetType " +
 			"have an arm for every AuthType_*/AuthTargetType_* constant of the pinned vitess parser and their default arms fail closed (return an error). (A2) every AuthType arm either sets a non-empty " +
 			"constant list of privilege types, or assigns hasPrivileges from an expression that reaches a privilege decision (UserHasPrivileges, RoutineAdminCheck, a node's CheckAuth, or a handler helper that " +
@@ -32,8 +32,13 @@ func init() {
 			"fresh maps), never loaded from the source; a helper that stores its argument is judged by what its callers pass. (D2) PrivilegeSet.Copy and UserCopy return values that share no map with " +
 			"their operand (every map field of every level is fresh; a struct copy counts only for the fields that are overwritten on every path before the return). (D3) the destination of every " +
 			"PrivilegeSet.UnionWith call in the module is a set the calling function built itself (NewPrivilegeSet / Copy), never a stored one - UserActivePrivilegeSet merges roles into a copy. " +
-			"A violation lets a role merge or a grant-table edit write into another account's stored grants: privileges survive REVOKE / leak between roles.",
-		NotCovered: "the privilege-set lookup itself (UserHasPrivileges, role activation), GRANT/REVOKE histories, CheckAuth implementations of plan nodes, target names computed by the parser, " +
+			"A violation lets a role merge or a grant-table edit write into another account's stored grants: privileges survive REVOKE / leak between roles. " +
+			"(K1) keyer field agreement of the grant tables' indexes: for every in_mem_table.Keyer of sql/mysql_db (types with GetKey(*Entry) any: primary and secondary keyers of user, role_edges, replica source info) each field of the key struct " +
+			"literal GetKey returns is filled from the entry field it denotes (same name, case-insensitively, same type), reads no other entry field, and no denoted field is left zero; keyers of one entry type build pairwise different key types; every " +
+			"GetMany/RemoveMany call of the module that names its keyer passes a key of the type that keyer builds (keys are `any`: a mismatch compiles and never matches). A violation makes DROP USER / DROP ROLE / REVOKE and the role lookup of the privilege " +
+			"check address a different account than the statement names: stale role edges re-grant a re-created role, or granted roles stop applying.",
+		NotCovered: "K1: key fields without a same-named entry field that are filled from the entry (none today; reported undecided), key values computed through entry methods, the callers' construction of key values from statement names (host/user order at the call sites in rowexec/plan), and the generic container itself (C47); " +
+			"the privilege-set lookup itself (UserHasPrivileges, role activation), GRANT/REVOKE histories, CheckAuth implementations of plan nodes, target names computed by the parser, " +
 			"integrator-supplied authorization handlers; for D1-D3: sharing of one fresh map between two entries of the same destination, callers that mutate a set obtained from the session cache " +
 			"through Add*/Remove*/Clear* (only UnionWith destinations are decided), maps stored by functions outside the family (calls outside the family with map-carrying operands make the rule undecided, " +
 			"which is a failure, inside the family and are assumed not to store their operands in the three UnionWith callers), nil maps",
@@ -50,6 +55,7 @@ func init() {
 				copies:    []string{"PrivilegeSet.Copy", "UserCopy"},
 				unionInto: "PrivilegeSet.UnionWith",
 				floors:    [3]int{5, 2, 2}})
+			runC39Keyer(c, c39KeyerCfg{rel: "sql/mysql_db", lookups: []string{"GetMany", "RemoveMany"}, floor: 26})
 		},
 		Fixture: func(c *Ctx, fx *Prog) {
 			expectFixture(c, fx, "c39: missing arm, emptied arm, permissive default, target arm that ignores the privilege list, early return nil, uncovered AST node, dropped error, unconsulted pair",
@@ -82,15 +88,21 @@ func init() {
 					"C39-D2:Set.CopyEmptyShortcut/result shares s",
 					"C39-D2:UserCopyBad/result shares u",
 					"C39-D3:testdata/c39/privset.ActiveBad/UnionWith",
+					"C39-K1:EdgeFromKeyer.GetKey/FromHost",
+					"C39-K1:EdgeToKeyer.GetKey/ToUser",
+					"C39-K1:EdgeToKeyer/key type",
+					"C39-K1:EdgeDupKeyer/key type",
+					"C39-K1:Tbl.Drop/RemoveMany(EdgeFromKeyer)",
 				},
 				func(fc *Ctx) {
 					runC39Copy(fc, c39CopyCfg{rel: "testdata/c39/privset",
 						merges:    []string{"Set.UnionWith", "Tbl.unionWith", "Set.MergeFast", "Set.MergeViaHelper", "Set.MergeViaHelperBad", "Set.MergeHalfClone", "Set.MergeCloneStd", "Set.AdoptCloneShallow"},
 						copies:    []string{"Set.Copy", "Set.CopyOverwrite", "Set.CopyShallow", "Set.CopyEmptyShortcut", "UserCopy", "UserCopyBad"},
 						unionInto: "Set.UnionWith"})
+					runC39Keyer(fc, c39KeyerCfg{rel: "testdata/c39/keyer", lookups: []string{"GetMany", "RemoveMany"}})
 				})
 		},
-		FixturePkgs: []string{"./testdata/c39/build", "./testdata/c39/ast", "./testdata/c39/privset"},
+		FixturePkgs: []string{"./testdata/c39/build", "./testdata/c39/ast", "./testdata/c39/privset", "./testdata/c39/keyer"},
 	})
 }
 
